@@ -21,6 +21,16 @@
 (* DMARC quarantine action) into the message metadata which the targets    *)
 (* observe.                                                                *)
 (*                                                                         *)
+(* Two further dimensions (constants Kinds, ModOn):                         *)
+(*  kind "rpipe"  the target of block D1 is the real remote target, which  *)
+(*                refuses a message that is flagged when the body reaches  *)
+(*                it, on the atomic and on the per-recipient path alike;   *)
+(*  mod "on"      the destination blocks carry a recipient modifier that   *)
+(*                may fail for one recipient (action Mod): that RCPT is    *)
+(*                refused, and the refusal does not change which blocks'   *)
+(*                checks see the body (the block was attached to the       *)
+(*                message before the modifier ran).                        *)
+(*                                                                         *)
 (* Deviations of the code from this design are named and switched by Devs: *)
 (*  "NABody"            BodyNonAtomic (per-recipient body path) skips the  *)
 (*                      destination-scope body checks and applyResults     *)
@@ -41,6 +51,8 @@ CONSTANTS NChecks,      \* number of checks (1..4); names c1.. in default comple
           Dmarcs,       \* subset of {"off", "quar"}
           Only1On,      \* TRUE: rcpt-stage verdicts may apply to recipient r1 only
           WithRemote,   \* TRUE: include the remote-target scenario
+          Kinds,        \* subset of {"pipe", "rpipe"}: recording targets / the real remote target behind D1
+          ModOn,        \* TRUE: destination blocks may carry a recipient modifier that fails for one recipient
           Lazy,         \* TRUE: verdicts, routes, body path are chosen when first consulted
                         \* (same behaviours, shared prefixes); FALSE: chosen up-front (CfgS, CfgF)
           Devs,         \* enabled deviations
@@ -85,19 +97,20 @@ Routes == {rt \in UNION {[1..n -> DBlocks] : n \in 1..MaxRcpts} : rt[1] = "D1"}
 \* The configuration is revealed step by step ("?" = not consulted yet); a behaviour depends
 \* only on the cells it consults, so this is the same set of behaviours as choosing everything
 \* up-front, with shared prefixes.
-BaseCfg(p) ==
+BaseCfg(p, kd) ==
   [place |-> [c \in Checks |-> p[Idx(c)]],
    verd  |-> [c \in Checks |-> [s \in Stages |-> "?"]],
-   only1 |-> {}, route |-> <<>>, path |-> "?", dmarc |-> "?", kind |-> "pipe",
+   only1 |-> {}, route |-> <<>>, path |-> "?", dmarc |-> "?", kind |-> kd,
+   mod |-> IF ModOn /\ kd = "pipe" THEN "?" ELSE "off", mfail |-> {},
    nn |-> 0, cells |-> {}, fixed |-> FALSE]
 
 RemoteCfg ==
   [place |-> [c \in Checks |-> {}], verd |-> [c \in Checks |-> [s \in Stages |-> "none"]],
    only1 |-> {}, route |-> <<"D1">>, path |-> "atomic", dmarc |-> "off", kind |-> "remote",
-   nn |-> 0, cells |-> {}, fixed |-> TRUE]
+   mod |-> "off", mfail |-> {}, nn |-> 0, cells |-> {}, fixed |-> TRUE]
 
 Idle == [st |-> "idle", op |-> "", r |-> "", items |-> <<>>, todo |-> <<>>, pend |-> {},
-         rej |-> FALSE, anyrej |-> FALSE, gq |-> FALSE, tq |-> {}, res |-> ""]
+         rej |-> FALSE, anyrej |-> FALSE, gq |-> FALSE, tq |-> {}, tfail |-> FALSE, res |-> ""]
 
 InitWith(c) ==
   /\ cfg = c
@@ -113,7 +126,7 @@ InitWith(c) ==
   /\ hist = <<>>
 
 Init ==
-  \/ \E p \in PlaceSeqs : InitWith(BaseCfg(p))
+  \/ \E p \in PlaceSeqs : \E kd \in Kinds : InitWith(BaseCfg(p, kd))
   \/ WithRemote /\ InitWith(RemoteCfg)
 
 (* up-front choice of the verdict table (~Lazy): which cells are not "none", then their values *)
@@ -190,9 +203,12 @@ AfterChecks(kk, dv, op, r, cf) ==
     [] op = "rcpt" ->
          LET b == RouteOf(cf, r)
              t == TargetOf(b)
-         IN /\ k' = kk /\ devs' = dv /\ cfg' = cf
+         IN \* the block's recipient modifiers are attached to the message (getRcptModifiers): from here
+            \* on the block takes part in the body stage, whatever happens to this recipient
+            \E m \in (IF cf.mod = "?" THEN {"on", "off"} ELSE {cf.mod}) :
+            /\ k' = kk /\ devs' = dv /\ cfg' = [cf EXCEPT !.mod = m]
             /\ used' = used \cup {b}
-            /\ run' = [Idle EXCEPT !.st = "tgt", !.op = op, !.r = r,
+            /\ run' = [Idle EXCEPT !.st = IF m = "on" THEN "mod" ELSE "tgt", !.op = op, !.r = r,
                                    !.tq = {[t |-> t, op |-> "rcpt"]}
                                           \cup (IF tg[t] = "none" THEN {[t |-> t, op |-> "start"]} ELSE {})]
             /\ UNCHANGED metaQ
@@ -243,7 +259,7 @@ Cmd ==
                 \* the block the recipient is routed to (destination blocks are interchangeable:
                 \* the first recipient goes to D1)
                 \E b \in (IF drv.i <= Len(cfg.route) THEN {cfg.route[drv.i]}
-                          ELSE IF drv.i = 1 THEN {"D1"} ELSE DBlocks) :
+                          ELSE IF drv.i = 1 \/ cfg.kind = "rpipe" THEN {"D1"} ELSE DBlocks) :
                   LET cf == IF drv.i <= Len(cfg.route) THEN cfg ELSE [cfg EXCEPT !.route = Append(@, b)]
                   IN Proceed(k, <<>>, <<"G", "S", b>>, devs, op, r, cf)
              [] op = "body"  ->
@@ -311,16 +327,31 @@ CallDone(c) ==
 (* ------------------------------------------------------------------------ *)
 (* calls on the delivery targets (scripted to succeed)                      *)
 (* ------------------------------------------------------------------------ *)
+\* the real remote target refuses a flagged message for good; recording targets always succeed
+TgtRes(x) == IF cfg.kind = "rpipe" /\ metaQ /\ x.op \in {"rcpt", "body", "bodyNA"} THEN "perm" ELSE "ok"
+
 Tgt(x) ==
   /\ run.st = "tgt" /\ x \in run.tq
   /\ x.op = "rcpt" => [t |-> x.t, op |-> "start"] \notin run.tq
-  /\ obs' = ObsTgt(obs, cfg, x.t, x.op, IF x.op = "rcpt" THEN run.r ELSE "", "ok", metaQ)
+  /\ obs' = ObsTgt(obs, cfg, x.t, x.op, IF x.op = "rcpt" THEN run.r ELSE "", TgtRes(x), metaQ)
   /\ tg' = CASE x.op = "start" -> [tg EXCEPT ![x.t] = "open"]
              [] x.op \in {"commit", "abort"} -> [tg EXCEPT ![x.t] = "done"]
              [] OTHER -> tg
-  /\ run' = IF run.tq = {x} THEN [run EXCEPT !.st = "ret", !.tq = {}, !.res = "ok"]
-            ELSE [run EXCEPT !.tq = @ \ {x}]
+  /\ LET tf == run.tfail \/ TgtRes(x) # "ok" IN
+     run' = IF run.tq = {x} THEN [run EXCEPT !.st = "ret", !.tq = {}, !.tfail = FALSE,
+                                            !.res = IF tf THEN "err" ELSE "ok"]
+            ELSE [run EXCEPT !.tq = @ \ {x}, !.tfail = tf]
   /\ UNCHANGED <<cfg, drv, k, metaQ, used, devs, delays, hist>>
+
+(* the destination block's recipient modifier rewrites the recipient - or fails (at most once) *)
+Mod ==
+  /\ run.st = "mod"
+  /\ \E fail \in (IF cfg.fixed \/ cfg.mfail # {} THEN {run.r \in cfg.mfail} ELSE BOOLEAN) :
+       /\ cfg' = IF fail THEN [cfg EXCEPT !.mfail = @ \cup {run.r}] ELSE cfg
+       /\ obs' = ObsMod(obs, cfg, RouteOf(cfg, run.r), run.r, IF fail THEN "err" ELSE "ok")
+       /\ run' = IF fail THEN [Idle EXCEPT !.st = "ret", !.op = run.op, !.r = run.r, !.res = "err"]
+                 ELSE [run EXCEPT !.st = "tgt"]
+  /\ UNCHANGED <<drv, k, metaQ, used, tg, devs, delays, hist>>
 
 Ret ==
   /\ run.st = "ret"
@@ -364,6 +395,7 @@ Next ==
   \/ CfgS \/ CfgF \/ Cmd \/ Ret \/ End \/ RemoteStart \/ RemoteRcpt
   \/ \E c \in Checks : CallDone(c)
   \/ \E x \in run.tq : Tgt(x)
+  \/ Mod
   \/ (drv.ph = "done" /\ ~Gen /\ UNCHANGED vars)
 
 Spec == Init /\ [][Next]_vars
@@ -374,7 +406,7 @@ Spec == Init /\ [][Next]_vars
 (* ------------------------------------------------------------------------ *)
 NoViolation == obs.viol = {}
 NoDevs      == Devs = {} => devs = {}
-TypeOK == /\ run.st \in {"idle", "grp", "tgt", "ret"}
+TypeOK == /\ run.st \in {"idle", "grp", "mod", "tgt", "ret"}
           /\ k.reg \subseteq Checks
           /\ \A t \in Targets : tg[t] \in {"none", "open", "done"}
 \* every delivery that was opened is finished when the message is over
